@@ -21,6 +21,14 @@ def np_process_record(example):
     return ("P", 3 * dsops.ex_id_of(example) + 1, example)
 
 
+def np_process_record_some_none(example):
+    with _calls_lock:
+        _calls["n"] += 1
+    if dsops.ex_id_of(example) % 3 == 0:
+        return None
+    return ("P", 3 * dsops.ex_id_of(example) + 1, example)
+
+
 def tf_process_record(record):
     out = dict(record)
     out["id"] = record["id"] * 3 + 1
@@ -62,6 +70,9 @@ def st_read(shuffle: bool = True, proc: bool = True):
         "fp": st.sampled_from([["abs", 1], ["abs", 2], ["abs", 3], ["S", -1],
                                ["S", 0], ["S", 1], ["S", 2], ["abs", 7]]),
         "proc": st.booleans() if proc else st.just(False),
+        # the transformation returns None for every third example (legal: its
+        # result is the caller's business)
+        "proc_none": st.booleans() if proc else st.just(False),
         "delays": st.lists(st.integers(0, 3), min_size=0, max_size=6),
     })
 
